@@ -267,6 +267,7 @@ func faultTable() []faultCase {
 	add("Range/nil-array-pointer-index-only", "var p *[2]int\nfor i := range p { println(i) }", "^nil$")
 	add("Recover/named-result-assigned-under-nil-test", "println(namedResult())", "^nil$")
 	add("Append/func-literal", "var fs []func()\nfs = append(fs, func() {})\nprintln(len(fs))", "^nil$")
+	add("Append/nil-element", "var is []any\nis = append(is, nil, 1)\nvar ps []*int\nps = append(ps, nil)\nprintln(len(is), len(ps))", "^nil$")
 	add("Defer-native/panics-while-unwinding", "defer host.PanicString()\npanic(\"a\")", pe)
 	add("Defer-native/stop-while-unwinding", "defer host.Stop()\npanic(\"a\")", "^Stop$")
 	add("Defer-native/panics-at-return", "defer host.PanicString()", pe+"native panic$")
@@ -334,7 +335,6 @@ func faultTable() []faultCase {
 	mark("Defer-native/panics-at-return", "host-panic:deferred-native-panic-at-return", "native panic")
 	mark("CallNative/callback-panics", "host-panic:callback-panic-is-fatal", "cb")
 	mark("Recover/named-result-assigned-under-nil-test", "host-panic:recover-named-result-IsNil", "reflect.Value.IsNil on string Value")
-	mark("Append/func-literal", "host-panic:append-func-literal-callable", "*runtime.callable is not assignable to type func()")
 
 	// ---- templates
 	g := native.Declarations{"v": (*any)(nil), "s": (*string)(nil), "stop": hostDecls["Stop"], "fatal": hostDecls["Fatal"], "boom": hostDecls["PanicString"]}
